@@ -8,14 +8,18 @@ T == ndJsonDeserialize(IOEnv.TRACE_FILE)
 VARIABLE l
 Report(ok, what) == IF ok THEN TRUE ELSE PrintT(what)
 
+\* RFC 8446 4.1.4: a HelloRetryRequest is sent as a ServerHello (type 2).  The type octet is judged by a clause of its own so
+\* that the rest of the layout is still compared when it differs.
+IsHrr(e) == e.kind = "hello_retry_request"
 CheckMsg(e) ==
-  /\ Report(e.wire = Enc(e.kind, e.abs), <<"BAD", "layout-differs-from-specification", l>>)
+  /\ Report(~IsHrr(e) \/ e.wire[1] = 2, <<"BAD", "hello-retry-request-handshake-type-is-not-server-hello", l>>)
+  /\ Report((IF IsHrr(e) THEN <<2>> \o Tail(e.wire) ELSE e.wire) = Enc(e.kind, e.abs), <<"BAD", "layout-differs-from-specification", l>>)
   /\ Report(e.back_same, <<"BAD", "conformant-encoding-not-recovered", l>>)
   /\ Report(e.again_same, <<"BAD", "second-compose-differs", l>>)
-\* a second conformant encoding built by the harness (SSL 2.0 three-byte header with padding): it must be what the
+\* a second conformant encoding built by the harness (SSL 2.0 three-byte header with padding; a hello with an empty extensions block): it must be what the
 \* specification prescribes for the abstract value, the parser must accept all of it and recover that value
 CheckAlt(e) ==
-  /\ Report(e.wire = EncSsl2Padded(e.kind, e.abs, e.pad), <<"BAD", "harness-alternative-encoding-is-not-the-specified-one", l>>)
+  /\ Report(e.wire = EncAlt(e.form, e.kind, e.abs, e.pad), <<"BAD", "harness-alternative-encoding-is-not-the-specified-one", l>>)
   /\ Report(e.parse = "ok" /\ e.n = Len(e.wire), <<"BAD", "conformant-encoding-rejected", l>>)
   /\ Report(e.parse # "ok" \/ e.back_same, <<"BAD", "conformant-encoding-not-recovered", l>>)
 CheckJa3(e) ==
